@@ -21,6 +21,7 @@ recorded as a list of (step, thread index) switches; `strategy="explicit"` repla
 from __future__ import annotations
 
 import hashlib
+import os
 import random
 import sys
 import threading
@@ -45,6 +46,32 @@ DEFAULT_STEP_CAP = 200_000
 
 class SchedAbort(BaseException):
     """Raised inside simulated threads to unwind them when a run is torn down (deadlock, step cap)."""
+
+
+# ------------------------------------------------------------------------------------------ CPU pinning
+_PINNED = False
+
+
+def _pin_once() -> None:
+    """Baton passing between OS threads is 2-3 times cheaper when the threads of one process share a core (no
+    cross-core wake-ups; only one of them runs at any moment anyway).  Each worker process pins itself once to
+    one of the CPUs it is allowed to use, chosen from its pool-worker number (FSIM_NO_PIN=1 disables this).
+    Purely a performance measure: nothing observable by a run depends on it."""
+    global _PINNED
+    if _PINNED:
+        return
+    _PINNED = True
+    if os.environ.get("FSIM_NO_PIN") or not hasattr(os, "sched_setaffinity"):
+        return
+    try:
+        import multiprocessing
+        ident = getattr(multiprocessing.current_process(), "_identity", ()) or ()
+        n = (ident[0] - 1) if ident else os.getpid()
+        cpus = sorted(os.sched_getaffinity(0))
+        if len(cpus) > 1:
+            os.sched_setaffinity(0, {cpus[n % len(cpus)]})
+    except Exception:                      # noqa: BLE001
+        pass
 
 
 # ------------------------------------------------------------------------------------------ code objects
@@ -152,6 +179,7 @@ class SimLock:
         self._waiters: list = []
         sched.n_locks += 1
         self.serial = sched.n_locks
+        self.name = f"lock#{self.serial}"
 
     def acquire(self, blocking=True, timeout=-1):
         s = self._s
@@ -167,6 +195,7 @@ class SimLock:
         if self._reentrant and self._owner is me:
             self._count += 1
             return True
+        s._sync_point(me, "before acquire of ", self)
         first = True
         while self._owner is not None:
             if not blocking:
@@ -211,6 +240,9 @@ class SimLock:
                     w.wake_result = True
             self._waiters = []
             s._dirty = True
+        me = s.current()
+        if me is not None:
+            s._sync_point(me, "after release of ", self)
 
     def __exit__(self, *a):
         self.release()
@@ -371,14 +403,16 @@ class TimeFacade:
 
 # ------------------------------------------------------------------------------------------ strategies
 def draw_strategy(r: random.Random) -> dict:
-    """Swarm: one schedule strategy per run (DESIGN 2.5 a/b/c)."""
+    """Swarm: one schedule strategy per run (DESIGN 2.5 a/b/c).  `at: sync` places the PCT change points / the
+    single forced pre-emption on lock acquire / release events instead of on instruction counts, `sync_p` adds
+    pre-emptions at those events to the uniform random strategy (races live at critical-section boundaries)."""
     c = r.random()
-    if c < 0.40:
-        s = {"strategy": "random", "p": r.choice([0.005, 0.02, 0.02, 0.10])}
-    elif c < 0.75:
-        s = {"strategy": "pct", "d": r.choice([1, 2, 2, 3])}
+    if c < 0.35:
+        s = {"strategy": "random", "p": r.choice([0.005, 0.02, 0.02, 0.10]), "sync_p": r.choice([0, 0, 0.1, 0.3])}
+    elif c < 0.72:
+        s = {"strategy": "pct", "d": r.choice([1, 2, 2, 3]), "at": r.choice(["step", "sync", "sync"])}
     else:
-        s = {"strategy": "one"}
+        s = {"strategy": "one", "at": r.choice(["step", "sync", "sync"])}
     s["u"] = [round(r.random(), 6) for _ in range(4)]     # positions of change points / the forced pre-emption (fractions)
     s["timer_hold"] = r.choice([0, 0, 0, 40, 400])
     s["tick_us"] = r.choice([0, 0, 37, 1000])
@@ -387,7 +421,7 @@ def draw_strategy(r: random.Random) -> dict:
 
 class Scheduler:
     def __init__(self, modules, sched: dict, seed: int, step_cap: int = DEFAULT_STEP_CAP, n_est: int | None = None,
-                 t0_us: int = 1_767_225_600_000_000):
+                 t0_us: int = 1_767_225_600_000_000, n_sync_est: int | None = None):
         self.modules = list(modules)
         self.cfg = dict(sched)
         self.seed = seed
@@ -415,6 +449,7 @@ class Scheduler:
         self.preemptions = 0
         self.preempt_free = 0
         self.preempt_held = 0
+        self.preempt_sync = 0
         self.main_tag = None
         self._cur: SThread | None = None
         self._dirty = True
@@ -430,6 +465,11 @@ class Scheduler:
         self._one_pending = False
         self._explicit = [tuple(x) for x in self.cfg.get("switches", [])]
         self._xi = 0
+        self.sync_events = 0
+        self._sync_p = float(self.cfg.get("sync_p", 0))
+        self._sync_points: dict = {}
+        self._one_sync_at = None
+        self.n_sync_est = None
         sched_self = self
 
         class _Timer(SimTimer):
@@ -439,15 +479,23 @@ class Scheduler:
         self.RLock = lambda: SimRLock(sched_self)
         u = list(self.cfg.get("u", [0.5, 0.25, 0.75, 0.1]))
         n = max(1, int(n_est or 1))
+        self.n_sync_est = n_sync_est
+        at_sync = self.cfg.get("at") == "sync" and n_sync_est
+        if at_sync:
+            n = max(1, int(n_sync_est))
         if self._mode == "pct":
             d = int(self.cfg.get("d", 2))
+            pts = self._sync_points if at_sync else self._points
             for i in range(d):
                 k = 1 + int(u[i % len(u)] * n)
-                while k in self._points:
+                while k in pts:
                     k += 1
-                self._points[k] = float(d - i)      # later change points give lower priorities
+                pts[k] = float(d - i)      # later change points give lower priorities
         elif self._mode == "one":
-            self._one_at = 1 + int(u[0] * n)
+            if at_sync:
+                self._one_sync_at = 1 + int(u[0] * n)
+            else:
+                self._one_at = 1 + int(u[0] * n)
 
     # ------------------------------------------------------------------ clock
     def time(self) -> float:
@@ -576,6 +624,47 @@ class Scheduler:
                 self._xi = i
         return None
 
+    def _sync_point(self, me: SThread, what: str, lock) -> None:
+        """A lock acquire / release by a simulated thread: an additional, targeted pre-emption point."""
+        if self.aborting or self._cur is not me:
+            return
+        n = self.sync_events + 1
+        self.sync_events = n
+        mode = self._mode
+        to = None
+        if mode == "random":
+            if self._sync_p and self._rng.random() < self._sync_p:
+                cand = self._eligible(me)
+                if cand:
+                    to = cand[int(self._rng.random() * len(cand))]
+        elif mode == "pct":
+            pr = self._sync_points.get(n)
+            if pr is not None:
+                me.prio = pr
+                top = me
+                for t in self.threads:
+                    if (t.state == RUNNABLE or t.state == PENDING) and t.prio > top.prio:
+                        top = t
+                if top is not me:
+                    to = top
+        elif mode == "one":
+            if self._one_sync_at is not None and n >= self._one_sync_at:
+                cand = self._eligible(me)
+                if cand:
+                    self._one_sync_at = None
+                    to = cand[int(self._rng.random() * len(cand))]
+        if to is not None:
+            self.preemptions += 1
+            if me.nheld > 0:
+                self.preempt_held += 1
+            else:
+                self.preempt_free += 1
+            self.preempt_sync += 1
+            self._handoff(me, to, "preempt", what + lock.name)
+            me.baton.acquire()
+            if self.aborting:
+                raise SchedAbort()
+
     def _eligible(self, exclude) -> list:
         hold = self._hold
         s = self.steps
@@ -669,12 +758,33 @@ class Scheduler:
         rows = []
         for t in self.threads:
             if t.state == BLOCKED:
-                o = t.blocked_on._owner if t.blocked_on is not None else None
-                oname = o.name if isinstance(o, SThread) else str(o)
-                rows.append((t.idx, t.name, t.blocked_on.serial if t.blocked_on is not None else -1, oname))
+                lk = t.blocked_on
+                o = lk._owner if lk is not None else None
+                rows.append({"thread": t.idx, "name": t.name, "tag": t.tag, "lock": lk.name if lk is not None else "?",
+                             "owner": o.idx if isinstance(o, SThread) else None,
+                             "owner_name": o.name if isinstance(o, SThread) else str(o),
+                             "owner_state": STATE_NAME[o.state] if isinstance(o, SThread) else "-"})
         self.deadlock = rows
         self.aborting = True
         self._cur = None
+
+    def deadlock_key(self) -> str:
+        """Names of the locks on the wait-for cycle (or the lock left held by a finished thread)."""
+        rows = self.deadlock or []
+        by_thread = {r["thread"]: r for r in rows}
+        for r in rows:
+            if r["owner"] is None or r["owner"] not in by_thread:
+                return f"{r['lock']} never released (held by {r['owner_state']} thread)"
+        # every blocked thread waits for a blocked thread: follow the chain from the first one until it repeats
+        seen, cur = [], rows[0]["thread"] if rows else None
+        while cur is not None and cur not in seen:
+            seen.append(cur)
+            cur = by_thread[cur]["owner"]
+        cyc = seen[seen.index(cur):] if cur in seen else seen
+        return "‖".join(sorted({by_thread[t]["lock"] for t in cyc}))
+
+    def deadlock_text(self) -> str:
+        return "; ".join(f"{r['name']} waits for {r['lock']} held by {r['owner_name']}" for r in (self.deadlock or []))
 
     # ------------------------------------------------------------------ thread body
     def _boot(self, t: SThread):
@@ -719,6 +829,7 @@ class Scheduler:
             raise HarnessError("Scheduler.run() re-entered")
         self._running = True
         started = False
+        _pin_once()
         try:
             self._install()
             first = self._pick_first()
